@@ -343,8 +343,12 @@ class BaseTemplate:
         # (the qualified name: template classes of two packages may
         # share their plain name)
         cls = type(self)
-        class_name = "{}.{}".format(
-            cls.__module__, cls.__qualname__).encode('utf-8')
+        qualified = "{}.{}".format(cls.__module__, cls.__qualname__)
+        if '<' in qualified:
+            # (a class made inside a function shares this name with
+            # every other class made there: the identity is part of it)
+            qualified = "{}@{:x}".format(qualified, id(cls))
+        class_name = qualified.encode('utf-8')
         filename = str(self.filename)
         sha = get_pkg_digest()
         sha.update(class_name + b'\n')
